@@ -98,6 +98,7 @@ type Engine struct {
 	// results
 	Paths, Infeasible, Forks, MaxDepth int
 	Obligations, Discharged, Trivial   int
+	AbsDischarged                      int // discharged by the interval/order abstraction (subset of Discharged)
 	Undecided     []Undecided
 	Cexs          []*Cex
 	cexPerLabel   map[string]int
@@ -176,6 +177,7 @@ func (e *Engine) addPC(c *term.Term) {
 	}
 	e.pc = append(e.pc, c)
 	e.abs.learn(c)
+	e.abs.ord.learn(c)
 }
 
 // feasible: pc ∧ c satisfiable? Unknown counts as feasible (sound: final
@@ -557,6 +559,15 @@ func (e *Engine) Assert(c *term.Term, label string) {
 		e.Trivial++
 		e.Obligations++
 		e.Discharged++
+		return
+	}
+	if e.abs.abool(c) == 1 {
+		// implied by interval/order facts that are conjuncts of the path
+		// condition (pc => c, so pc && !c is unsat): discharged without a solver call
+		e.Obligations++
+		e.Discharged++
+		e.AbsDischarged++
+		e.pathAsserts = append(e.pathAsserts, label)
 		return
 	}
 	site := e.site()
